@@ -327,6 +327,13 @@ func c05(r *lp.Run) {
 	if discarded*10 > len(sets)+discarded {
 		r.Fail(lp.PropFail{Property: "C05", What: "more than 10% of the route sets are refused by the generator (correspondence cannot be established)", Input: discarded, Observed: fmt.Sprint(discarded), Expected: "rare refusals"})
 	}
+	// tails that are first bytes of non-ASCII characters (implementation only: the model's alphabet is characters,
+	// the tree's is bytes)
+	naRoutes := []rroute{{"GET", "/a/{x}é"}, {"GET", "/a/{x}b"}, {"GET", "/m/{x}é"}, {"GET", "/n/{x}ü/{y}"}, {"GET", "/n/{x}é"}, {"GET", "/n/{x}-z"}}
+	naPkg, naErr := mod.Add("rtna", []byte(specForRoutes(naRoutes)), gen.Options{})
+	if naErr != nil {
+		r.Fail(lp.PropFail{Property: "C05", What: "the generator refuses the route set with non-ASCII static text", Input: rsetLine(naRoutes), Observed: naErr.Error(), Expected: "generated router"})
+	}
 	bin, err := mod.Build()
 	if err != nil {
 		r.Fail(lp.PropFail{Property: "C02", What: "generated routers do not compile", Input: "route-set specs", Observed: err.Error(), Expected: "compiles"})
@@ -340,6 +347,42 @@ func c05(r *lp.Run) {
 	L := r.N(4, 6)
 	for _, s := range sets {
 		c05Probe(r, rng, drv, s, L)
+	}
+	if naPkg != nil {
+		// ASCII values in front of a non-ASCII tail; the request target as a client writes it (escaped)
+		type na struct {
+			tmpl string
+			args []string
+		}
+		var items [][3]string
+		var want []na
+		for _, rt := range naRoutes {
+			n := tmplNParams(rt.tmpl)
+			for _, v := range []string{"v", "aa", "0", "x.y", "qq", "Zz9"} { // no byte that may follow the parameter ('b', '-')
+				args := make([]string, n)
+				for i := range args {
+					args[i] = v
+				}
+				inst := tmplInst(rt.tmpl, args)
+				u := url.URL{Path: inst}
+				items = append(items, c12RequestItem(rt.method, u.EscapedPath(), inst))
+				want = append(want, na{rt.tmpl, args})
+			}
+		}
+		ans, _ := drv.Do(map[string]any{"pkg": naPkg.Name, "cmd": "batch", "items": items})
+		res, _ := ans["results"].([]any)
+		for i, x := range res {
+			r.PropCheck()
+			r.Count("nonascii "+items[i][1], "nonascii-tail", true)
+			got := fmt.Sprint(x)
+			exp := " " + want[i].tmpl + " " + gcHexArgs(want[i].args) + " S:"
+			if !strings.HasPrefix(got, "F:ok ") || !strings.Contains(got, exp) {
+				r.Fail(lp.PropFail{Property: "C05", What: "an instance of a template whose parameter is followed by a non-ASCII character does not reach it", Input: map[string]any{"routes": rsetLine(naRoutes), "method": items[i][0], "path": items[i][1], "raw_path": items[i][2]}, Observed: got, Expected: "F:ok …" + exp + "…"})
+			}
+		}
+		if len(res) == 0 {
+			r.Fail(lp.PropFail{Property: "C05", What: "driver failure", Input: "rtna", Observed: fmt.Sprint(ans), Expected: "results"})
+		}
 	}
 }
 
@@ -688,7 +731,12 @@ func c05Judge(r *lp.Run, s *c05set, p probe, ans string) {
 		// path-level completeness: the instance reaches a node (a dispatch, or 405 when the method is
 		// not defined at the reached — possibly more specific — template; Allow is judged below)
 		if !dispatched && status != "405" && !(p.method == "OPTIONS" && status == "204") {
-			fail("a template instance with fitting arguments (non-empty, no '/', no following literal byte) reaches no template", find+" / "+status, "dispatch to "+p.tmpl+" or a more specific matching template (or 405 there)")
+			if p.raw != "" && k18Template(p.tmpl) {
+				// K18: static text that has to stay escaped is held by the tree as the key spells it
+				r.Known(lp.PropFail{Property: "C05", Class: "K18", What: "a template whose static text holds an octet that must stay escaped is matched in one request spelling only", Input: in, Observed: find + " / " + status, Expected: "dispatch to " + p.tmpl})
+			} else {
+				fail("a template instance with fitting arguments (non-empty, no '/', no following literal byte) reaches no template", find+" / "+status, "dispatch to "+p.tmpl+" or a more specific matching template (or 405 there)")
+			}
 		}
 	}
 	// 405: Allow lists exactly the methods defined for the matched template
@@ -727,6 +775,18 @@ func c05Judge(r *lp.Run, s *c05set, p probe, ans string) {
 			}
 		}
 	}
+}
+
+// k18Template: the template's static text holds a byte that a URI path carries escaped (non-ASCII, space, …)
+func k18Template(t string) bool {
+	static := tmplParamRe.ReplaceAllString(t, "")
+	for i := 0; i < len(static); i++ {
+		c := static[i]
+		if c >= 0x80 || c <= 0x20 || c == '%' || c == '?' || c == '#' || c == '"' || c == '<' || c == '>' {
+			return true
+		}
+	}
+	return false
 }
 
 func k5Any(rs []rroute) bool {
